@@ -23,7 +23,7 @@ DT = 64
 
 def gen(seed, rev=None, layout=None, scheme=None, nsteps=None, numrec=None, period=None, continuous=None,
         kills=True, subgrid=None, scalars=True, vertadv=None, land=True, files=None, age=True, speed=None,
-        late_release=True, pvars=True, first_release=0):
+        late_release=True, pvars=True, first_release=0, frame_gaps=None):
     r = np.random.RandomState(seed)
     imax, jmax = [(12, 10), (9, 13), (11, 11), (10, 12)][seed % 4]     # wide, tall, square
     N = int(r.choice([2, 4]))
@@ -51,7 +51,9 @@ def gen(seed, rev=None, layout=None, scheme=None, nsteps=None, numrec=None, peri
     first = -int(r.choice([0, 0, 1, 2, 3]))
     fsteps = [first]
     while fsteps[-1] < nsteps:
-        fsteps.append(fsteps[-1] + int(r.choice([1, 2, 4, 4, 8])))
+        gap = int(r.choice([1, 2, 4, 4, 8]))
+        # frame_gaps: the distances between consecutive frames (in steps), cycled, instead of random ones
+        fsteps.append(fsteps[-1] + (gap if frame_gaps is None else int(frame_gaps[(len(fsteps) - 1) % len(frame_gaps)])))
     nf = len(fsteps)
     nfiles = int(r.randint(1, min(3, nf) + 1)) if files is None else min(files, nf)
     cuts = sorted(r.choice(range(1, nf), nfiles - 1, replace=False).tolist()) if nfiles > 1 else []
@@ -152,6 +154,9 @@ def write(sc, d, warm=None, out_name=None, shift=0):
     rows = []
     for x in sc["rows"]:
         row = dict(release_time=sim2time(sc, x["step"]) + shift, mult=x["mult"], X=x["X"], Y=x["Y"], Z=x["Z"])
+        for flag in ("active", "alive"):          # flag columns of the release file (0/1), if the scenario has them
+            if any(flag in y for y in sc["rows"]):
+                row[flag] = int(x.get(flag, 1))
         rows.append(row)
     lab.write_release(d / "release.rls", rows)
     ibm_path = lab.write_rec_ibm(d)
@@ -162,6 +167,8 @@ def write(sc, d, warm=None, out_name=None, shift=0):
     for nm in extra_forcing(sc):
         ivars[nm] = "float"
     out_iv = ["pid", "X", "Y", "Z"] + (["age"] if sc["age"] else []) + (["temp"] if sc["scalars"] else [])
+    if sc.get("out_flags"):
+        out_iv += ["alive", "active"]        # the flags written to the output too (as 8-bit integers: netCDF has no booleans)
     # "stop_extra": seconds beyond the last whole step (the run has floor(duration / dt) steps all the same)
     sgn = -1 if sc["rev"] else 1
     conf = lab.base_conf(d, sc["start"] + shift, sim2time(sc, sc["nsteps"]) + shift + sgn * int(sc.get("stop_extra", 0)), DT, sc["period"] * DT + int(sc.get("period_extra", 0)), str(d / "forcing_*.nc"),
@@ -251,7 +258,11 @@ def request(sc, warm=None, start_step=0):
             frames.append([sc["fsteps"][m] - start_step, k, order.index(m)])
     rows = []
     for x in sc["rows"]:
-        rows.append(dict(time=sim2time(sc, x["step"]), mult=x["mult"], cols=dict(X=val_s(x["X"]), Y=val_s(x["Y"]), Z=val_s(x["Z"]))))
+        cols = dict(X=val_s(x["X"]), Y=val_s(x["Y"]), Z=val_s(x["Z"]))
+        for flag in ("active", "alive"):
+            if any(flag in y for y in sc["rows"]):
+                cols[flag] = str(int(x.get(flag, 1)))
+        rows.append(dict(time=sim2time(sc, x["step"]), mult=x["mult"], cols=cols))
     ivars = []
     if sc["age"]:
         ivars.append(["age", "0"])
@@ -263,7 +274,7 @@ def request(sc, warm=None, start_step=0):
     if sc["vertadv"]:
         scal["w"] = tabW
     start = sim2time(sc, start_step)
-    stop = sim2time(sc, sc["nsteps"])
+    stop = sim2time(sc, sc["nsteps"]) + (-1 if sc["rev"] else 1) * int(sc.get("stop_extra", 0))      # as in write()
     kill = {str(int(k) - start_step): v for k, v in sc["kill"].items()}
     out_iv = ["pid", "X", "Y", "Z"] + (["age"] if sc["age"] else []) + (["temp"] if sc["scalars"] else [])
     rq = dict(op="run", time=dict(start=start, stop=stop, dt=DT, rev=sc["rev"], ref=sc.get("reference_s")),
